@@ -2142,7 +2142,7 @@ pub enum PropertyStorage {
         entries: [(PropertyKey, Property); INLINE_PROPERTY_CAPACITY],
     },
     /// HashMap storage for larger objects.
-    Map(FxHashMap<PropertyKey, Property>),
+    Map(IndexMap<PropertyKey, Property>),
 }
 
 impl Default for PropertyStorage {
@@ -2170,7 +2170,7 @@ impl PropertyStorage {
         if capacity <= INLINE_PROPERTY_CAPACITY {
             Self::new()
         } else {
-            PropertyStorage::Map(FxHashMap::with_capacity_and_hasher(
+            PropertyStorage::Map(IndexMap::with_capacity_and_hasher(
                 capacity,
                 Default::default(),
             ))
@@ -2240,7 +2240,7 @@ impl PropertyStorage {
                 }
 
                 // Need to convert to Map (current_len == INLINE_PROPERTY_CAPACITY)
-                let mut map = FxHashMap::with_capacity_and_hasher(
+                let mut map = IndexMap::with_capacity_and_hasher(
                     INLINE_PROPERTY_CAPACITY + 1,
                     Default::default(),
                 );
@@ -2293,7 +2293,7 @@ impl PropertyStorage {
                     }
                 }
                 if let Some(i) = found_idx {
-                    // Swap with last element and decrement len
+                    // Take the entry out, close the gap and decrement len
                     let removed = if let Some(entry) = entries.get_mut(i) {
                         mem::replace(
                             entry,
@@ -2302,8 +2302,9 @@ impl PropertyStorage {
                     } else {
                         return None;
                     };
-                    if i < current_len - 1 {
-                        entries.swap(i, current_len - 1);
+                    // Shift later entries down so that insertion order is preserved
+                    for j in i..current_len.saturating_sub(1) {
+                        entries.swap(j, j + 1);
                     }
                     *len -= 1;
                     Some(removed.1)
@@ -2311,7 +2312,7 @@ impl PropertyStorage {
                     None
                 }
             }
-            PropertyStorage::Map(map) => map.remove(key),
+            PropertyStorage::Map(map) => map.shift_remove(key),
         }
     }
 
@@ -2388,10 +2389,7 @@ pub enum PropertyStorageIter<'a> {
         index: usize,
         len: usize,
     },
-    #[cfg(feature = "std")]
-    Map(std::collections::hash_map::Iter<'a, PropertyKey, Property>),
-    #[cfg(not(feature = "std"))]
-    Map(hashbrown::hash_map::Iter<'a, PropertyKey, Property>),
+    Map(indexmap::map::Iter<'a, PropertyKey, Property>),
 }
 
 impl<'a> Iterator for PropertyStorageIter<'a> {
@@ -2422,10 +2420,7 @@ pub enum PropertyStorageIterMut<'a> {
     Inline {
         entries: &'a mut [(PropertyKey, Property)],
     },
-    #[cfg(feature = "std")]
-    Map(std::collections::hash_map::IterMut<'a, PropertyKey, Property>),
-    #[cfg(not(feature = "std"))]
-    Map(hashbrown::hash_map::IterMut<'a, PropertyKey, Property>),
+    Map(indexmap::map::IterMut<'a, PropertyKey, Property>),
 }
 
 impl<'a> Iterator for PropertyStorageIterMut<'a> {
